@@ -609,7 +609,13 @@ static void fam_docs(void)
 {
 	cur_fam = "F3-streams";
 	static const char *streams[] = {"1 2", "[]{}", "\"a\"\"b\"", "truefalse", "12", "1/**/2", "{\"a\":1}[2]", "null null", "1.5 2.5", "\"\\ud83d\" \"\\ude00\"",
-	                                "[1] //c\n[2]", "-1-2", "1e5 6", "nullnull", "[\"\xc3\xa9\"]\"\xc3\xa9\"", "{} x", "[1,2", "tru e"};
+	                                "[1] //c\n[2]", "-1-2", "1e5 6", "nullnull", "[\"\xc3\xa9\"]\"\xc3\xa9\"", "{} x", "[1,2", "tru e",
+	                                /* tokens longer than the scanner's 32/64-byte buffer steps */
+	                                "\"abcdefghijklmnopqrstuvwxyz01234\\u00e9abcdefghijklmnopqrstuvwxyz0123456\\ud83d\\ude00z\"",
+	                                "{\"abcdefghijklmnopqrstuvwxyz0123456789\":[\"abcdefghijklmnopqrstuvwxyz012345\\n\"]}",
+	                                "[123456789012345678901234567890123456.5e-3,-9223372036854775808]",
+	                                "/* a comment that is longer than thirty-two bytes, really */ 1 // and another one\n",
+	                                "\"\xe2\x82\xac\xe2\x82\xac\xe2\x82\xac\xe2\x82\xac\xe2\x82\xac\xe2\x82\xac\xe2\x82\xac\xe2\x82\xac\xe2\x82\xac\xe2\x82\xac\xe2\x82\xac\""};
 	for (unsigned i = 0; i < sizeof streams / sizeof streams[0]; i++)
 	{
 		TL = strlen(streams[i]);
